@@ -1108,7 +1108,12 @@ impl World for IovecWorld {
                 "extend" => [obj, off, len, rng.below(5)],
                 "read_n" => [
                     if rng.chance(2, 3) { obj } else { 3 + rng.below(2) },
-                    rng.boundary_size(bounds, max_len.min(20_000)),
+                    if rng.chance(1, 40) {
+                        // Around the largest arena chunk size.
+                        *rng.pick(&[(1u64 << 20) - 1, 1 << 20, (1 << 20) + 1, 1 << 19, 1 << 21])
+                    } else {
+                        rng.boundary_size(bounds, max_len.min(20_000))
+                    },
                     rng.below(6),
                     if rng.chance(1, 4) { 0 } else { rng.next() >> 1 },
                 ],
@@ -1180,7 +1185,7 @@ impl World for IovecWorld {
                             // Right after clone/take, or on an object the operation was not
                             // aimed at, any discrepancy is (also) a failure of snapshot
                             // independence.
-                            if (matches!(op.k, "clone" | "take") || !target) && f.prop != "C20" && f.prop != "C05" {
+                            if (matches!(op.k, "clone" | "take") || !target) && f.prop != "C20" {
                                 also.borrow_mut().push((i, Fail { prop: f.prop, inv: f.inv, detail: f.detail.clone() }));
                                 (i, Fail { prop: "C20", inv: if matches!(op.k, "clone" | "take") { "C20.wrong_after_clone_or_take" } else { "C20.sibling_changed" }, detail: format!("{} [{}]", f.detail, f.inv) })
                             } else {
